@@ -1,6 +1,6 @@
 (* Properties_C01_lyb.v - property C01 (print o parse = identity), LYB part: theorem statements only.
    Each is closed by [exact] of a lemma proved in LybChunkP.v / LybHashP.v and followed by Print Assumptions. *)
-From LY Require Import Base LybChunk LybChunkP.
+From LY Require Import Base LybChunk LybChunkP LybHash LybHashP.
 From LY.Gen Require Consts.
 Local Open Scope N_scope.
 
@@ -16,3 +16,24 @@ Theorem C01_lyb_chunk_roundtrip :
     lyb_run_read (shape script) (w_out st) = Ok (payloads script, mk_r [] []).
 Proof. exact lyb_chunk_roundtrip_proof. Qed.
 Print Assumptions C01_lyb_chunk_roundtrip.
+
+(* LYB schema hashes: whenever lyb_hash_siblings() succeeds on a list of siblings (module name, node name)
+   in lys_getnext() order, then for every sibling the bytes that lyb_print_schema_hash() writes are read by
+   lyb_read_hashes() without tripping its asserts or its array bound, and lyb_parse_schema_hash() - first
+   sibling whose hashes 0..i all match - finds exactly that sibling (by position), whatever follows in the
+   input. No duplicate-freeness is needed: with duplicate names hashing fails. *)
+Theorem C01_lyb_hashseq_identifies :
+  forall (l : list snode) ht,
+    hash_siblings l = Some ht ->
+    forall k n, nth_error l k = Some n ->
+    exists bs, print_schema_hash ht k n = Some bs /\
+               forall rest, parse_schema_hash l (bs ++ rest) = Ok (Some k, rest).
+Proof. exact lyb_hashseq_identifies_proof. Qed.
+Print Assumptions C01_lyb_hashseq_identifies.
+
+(* "hashing never fails for distinct names" is false: leaves n29 and n88 of a module m have the same
+   lyb_generate_hash() for every collision id, lyb_hash_siblings() gives up (LOGINT, LY_EINT) *)
+Theorem C01_lyb_hash_total_refuted :
+  exists l : list snode, NoDup l /\ hash_siblings l = None.
+Proof. exact hash_total_refuted_proof. Qed.
+Print Assumptions C01_lyb_hash_total_refuted.
